@@ -666,7 +666,7 @@ func (scWindow) Run(t *testing.T, prop string, seed uint64, cfgRaw json.RawMessa
 		}
 		if w.Viol != nil {
 			stream := isStreamClass(w.Viol.Class)
-			if (prop == "C01") != stream {
+			if prop != "C14" && (prop == "C01") != stream {
 				// the stream oracle belongs to C01, everything else here to C04/C14
 				w.Probes["other_property_"+w.Viol.Class]++
 				w.Viol = nil
